@@ -6,9 +6,10 @@
    All statements are equations in the error monad [res]: equal value, or the same exception class.
    They quantify over ALL input lists, slice counts, partitionings, pipelines and user functions
    (arbitrary Gallina functions into [res]); premises appear only where Spark itself needs them. *)
-From Coq Require Import String ZArith NArith List Bool.
+From Coq Require Import String ZArith NArith List Bool Reals PrimFloat.
 Require Import PV.Base.Val PV.Model.Rdd PV.Model.RddLib.
-Require Import PV.Proofs.Rdd PV.Proofs.RddTr PV.Proofs.RddAct PV.Proofs.RddLib.
+Require Import PV.Base.Num PV.Base.NumR.
+Require Import PV.Proofs.Rdd PV.Proofs.RddTr PV.Proofs.RddCount PV.Proofs.RddAct PV.Proofs.RddFold PV.Proofs.RddLib PV.Proofs.RddMean.
 Import ListNotations.
 Open Scope Z_scope.
 
@@ -29,14 +30,18 @@ Theorem C01_glom_law : forall ps : parts,
   concat (map (fun v => match v with VList l => l | _ => [] end) (concat (map (fun p => [VList p]) ps))) = concat ps.
 Proof. exact glom_law. Qed.
 
-(* ---- every action except mean/countByValue (below): the result on the partitions is the plain-list
-   result on the flat content.  [act_ok]: reduce needs an associative operator, fold/aggregate need
-   Spark's contract [agg_hom], take/top/takeOrdered a non-negative count, min/max a non-empty dataset. *)
+(* ---- every action except mean (below): the result on the partitions is the plain-list result on the
+   flat content.  [act_ok]: reduce needs an associative operator with one exception class, fold/aggregate need Spark's contract
+   [agg_hom], take/top/takeOrdered a non-negative count, min/max a non-empty dataset, countByValue
+   float-free values (the data domain); collect, count, first, sum, lookup, collectAsMap,
+   toLocalIterator need nothing. *)
 Theorem C01_act_flat : forall (a : act) (ps : parts), act_ok a (concat ps) ->
   run_act a ps = run_list a (concat ps).
 Proof. exact act_flat. Qed.
 
-Theorem C01_reduce_flat : forall (f : op2) (ps : parts), assoc_m f ->
+(* reduce: associative operator (in the error monad) whose exceptions all have one class -- the tasks of all
+   partitions run before the partial results are combined, so two failing steps may surface in either order *)
+Theorem C01_reduce_flat : forall (f : op2) (ps : parts), assoc_m f -> single_err f ->
   run_act (AReduce f) ps = run_list (AReduce f) (concat ps).
 Proof. exact reduce_flat. Qed.
 
@@ -47,6 +52,18 @@ Proof. exact aggregate_flat. Qed.
 Theorem C01_fold_flat : forall (z : val) (op : op2) (ps : parts), agg_hom z op op ->
   run_act (AFold z op) ps = run_list (AFold z op) (concat ps).
 Proof. exact fold_flat. Qed.
+
+(* fold in its textbook form: op associative with neutral element zero on a carrier closed under op *)
+Theorem C01_fold_monoid : forall (D : val -> Prop) (z : val) (op : op2), monoid_on D z op ->
+  forall ps : parts, Forall (Forall D) ps ->
+  run_act (AFold z op) ps = run_list (AFold z op) (concat ps).
+Proof. exact fold_monoid. Qed.
+
+(* countByValue: the per-partition dictionaries summed in partition order are the dictionary of the flat
+   list -- same keys, same counts, same insertion order *)
+Theorem C01_countByValue_flat : forall ps : parts, Forall Simple (concat ps) ->
+  run_act ACountByValue ps = run_list ACountByValue (concat ps).
+Proof. exact countByValue_flat. Qed.
 
 (* ---- reducing an empty dataset raises ValueError: any operator, any number of (empty) partitions *)
 Theorem C01_reduce_empty : forall (f : op2) (ps : parts), concat ps = [] ->
@@ -65,14 +82,35 @@ Corollary C01_slices_irrelevant : forall (ts : list tr) (a : act) (xs : list val
   pipeline_rdd ts a xs n = pipeline_rdd ts a xs m.
 Proof. exact slices_irrelevant. Qed.
 
+(* ---- mean().  The full statement (bit-identical floats) is false of the model and of the implementation:
+   Welford's running mean and the merge formulas round differently from sum(xs) / len(xs). *)
+Definition C01_mean_full : Prop :=
+  forall ps : parts, concat ps <> [] -> run_act AMean ps = run_list AMean (concat ps).
+
+Theorem C01_mean_bitexact_refuted : ~ C01_mean_full.
+Proof. exact mean_bitexact_refuted. Qed.
+
+(* what holds: the SAME regenerated kernels (sc_merge / sc_mergeStats, generic in the number type), run over
+   the real numbers, give sum / count for integer data in every partitioning -- the missing part is
+   floating-point rounding (covered by the bit-exact correspondence run and the oracle's 1e-9 tolerance) *)
+Theorem C01_mean_real_partial : forall (mx mn : R) (zs : list (list Z)), concat zs <> [] ->
+  @sc_mu ROps (sc_parts (0, 0%R, 0%R, mx, mn) zs) = (IZR (sumZ (concat zs)) / IZR (len (concat zs)))%R /\
+  @sc_n ROps (sc_parts (0, 0%R, 0%R, mx, mn) zs) = len (concat zs).
+Proof. exact mean_real. Qed.
+
 (* ---- non-vacuity: library members satisfy the premises, others do not *)
 Theorem C01_lib_assoc : assoc_m op_add /\ assoc_m op_max /\ assoc_m op_mul /\ assoc_m op_extend /\ ~ assoc_m op_sub.
 Proof. exact (conj op_add_assoc (conj op_max_assoc (conj op_mul_assoc (conj op_extend_assoc op_sub_not_assoc)))). Qed.
+Theorem C01_lib_single_err : single_err op_add /\ single_err op_max /\ single_err op_mul /\ single_err op_extend.
+Proof. exact (conj op_add_single (conj op_max_single (conj op_mul_single op_extend_single))). Qed.
 
 Theorem C01_lib_agg_hom :
   agg_hom (VInt 0) op_add op_add /\ agg_hom (VList []) op_append op_extend /\
   agg_hom (VInt 0) op_count op_add /\ ~ agg_hom (VInt 1) op_add op_add.
 Proof. exact (conj sum_agg_hom (conj collect_agg_hom (conj count_agg_hom one_not_agg_hom))). Qed.
+
+Theorem C01_lib_monoid : monoid_on is_int (VInt 0) op_add /\ monoid_on is_int (VInt 1) op_mul.
+Proof. exact (conj int_add_monoid int_mul_monoid). Qed.
 
 Theorem C01_lib_part_hom : part_hom mp_id /\ part_hom mp_inc /\ part_hom mp_dup /\ part_hom mp_evens /\ ~ part_hom mp_rev.
 Proof. exact (conj mp_id_hom (conj mp_inc_hom (conj mp_dup_hom (conj mp_evens_hom mp_rev_not_hom)))). Qed.
